@@ -281,6 +281,65 @@ theorem inv_run (c : Cfg) (ops : List Op) : ∀ w : W, Inv w → Inv (ops.foldl 
 
 theorem inv_reach (c : Cfg) (ops : List Op) : Inv (run c ops) := inv_run c ops _ inv_init
 
+/-- the spawn thread never loses or invents a `wait()` caller -/
+theorem waitSum_spawnStep (c : Cfg) (w : W) :
+    (spawnStep c w).waiting + (spawnStep c w).released = w.waiting + w.released ∧
+    (spawnStep c w).exists_ = w.exists_ ∧ ((spawnStep c w).pc = .init ↔ w.pc = .init) := by
+  unfold spawnStep
+  cases hpc : w.pc <;> simp only <;> (try split) <;> (try split) <;> (try split) <;>
+    simp [sideEffects, dropPorts, hpc] <;> (try omega)
+  all_goals (cases c.outcome <;> simp <;> (try split) <;> (try split) <;> simp)
+
+/-- every `wait()` issued on the cell is either parked or has returned — never lost -/
+theorem waitSum_run (c : Cfg) (ops : List Op) : ∀ w : W, w.exists_ = true → w.pc ≠ .init →
+    (ops.foldl (step c) w).waiting + (ops.foldl (step c) w).released =
+      w.waiting + w.released + ops.count .wait ∧
+    (ops.foldl (step c) w).exists_ = true := by
+  induction ops with
+  | nil => intro w h _; simp [h]
+  | cons op rest ih =>
+    intro w he hp
+    have key : (step c w op).exists_ = true ∧ (step c w op).pc ≠ .init ∧
+        (step c w op).waiting + (step c w op).released =
+          w.waiting + w.released + (if op = .wait then 1 else 0) := by
+      cases op with
+      | step =>
+        have := waitSum_spawnStep c w
+        refine ⟨by simp only [step]; rw [this.2.1]; exact he, ?_, by simp only [step]; simp; exact this.1⟩
+        simp only [step]; intro h; exact hp (this.2.2.mp h)
+      | begin => simp [step, hp, he]
+      | cast => simp only [step]; split <;> simp [he, hp]
+      | call => simp only [step, he]; simp; split <;> simp [hp]
+      | wait => simp only [step, he]; simp; split <;> simp [hp] <;> omega
+      | joinExt g => simp only [step]; split <;> simp [he, hp]
+      | stop => simp only [step]; split <;> simp [he, hp]
+      | kill => simp only [step]; split <;> simp [he, hp]
+      | drain => simp [step, he, hp]
+      | supSet st => simp only [step]; split <;> simp [he, hp]
+    have := ih (step c w op) key.1 key.2.1
+    simp only [List.foldl_cons, List.count_cons]
+    refine ⟨?_, this.2⟩
+    rw [this.1, key.2.2]
+    by_cases h : op = .wait <;> simp [h] <;> omega
+
+/-- a name clash: the spawn ends at once and nothing of the world is ever touched -/
+structure Untouched (w : W) : Prop where
+  pc : w.pc = .done
+  res : w.res = .errName
+  noCell : w.exists_ = false
+  fields : w.nameMine = false ∧ w.pidReg = false ∧ w.members = [] ∧ w.monitors = [] ∧ w.supSlot = false ∧
+    w.supKids = false ∧ w.mailbox = [] ∧ w.ports = [] ∧ w.waiting = 0 ∧ w.released = 0 ∧ w.status = 0 ∧
+    w.stopReq = false ∧ w.killReq = false ∧ w.admClosed = false
+
+theorem untouched_step (c : Cfg) (w : W) (op : Op) (h : Untouched w) : Untouched (step c w op) := by
+  obtain ⟨h1, h2, h3, h4⟩ := h
+  cases op <;> simp only [step, spawnStep, h1, h3] <;> (try split) <;> constructor <;> simp_all
+
+theorem untouched_run (c : Cfg) (ops : List Op) : ∀ w : W, Untouched w → Untouched (ops.foldl (step c) w) := by
+  induction ops with
+  | nil => intro w h; exact h
+  | cons op rest ih => intro w h; exact ih _ (untouched_step c w op h)
+
 /-- from the invariant: a failed spawn whose thread is done is clean -/
 theorem clean_of_inv (w : W) (h : Inv w) (hf : failed w = true) (hd : w.pc = .done) : clean w = true := by
   obtain ⟨a1, a2, a3, a4, a5, a6, a7, a8, a9, a10, a11, a12, a13, a14, a15⟩ := h
